@@ -395,3 +395,50 @@ Definition create_accepts (r : resp) : option Z := match r with RVal CPlaylist i
 
 (* what playlists.delete hands through when the answer is neither None, a bool nor an exception *)
 Definition delete_passthrough (r : resp) : value := match r with RInt z => VInt z | _ => VRaw end.
+
+(* ------------------------------------------------------------------ core events
+   The playlists controller broadcasts playlist_changed / playlist_deleted / playlists_loaded.
+   events_spec gives the events a request must emit as a function of its VALIDATED outcome (and,
+   for refresh, of which asked providers answered): an event only ever carries the value the
+   call returns after validation, and nothing is broadcast for a discarded answer.  None = not
+   determined (playlists.delete handing a non-bool answer through: recorded finding).
+   The harness records the events at mopidy.listener.send and evaluates events_ok on them. *)
+Inductive event := EvPlaylistChanged (id : Z) | EvPlaylistDeleted (u : uri) | EvPlaylistsLoaded | EvOther.
+
+Definition event_eqb (a b : event) : bool :=
+  match a, b with
+  | EvPlaylistChanged i, EvPlaylistChanged j => i =? j
+  | EvPlaylistDeleted u, EvPlaylistDeleted v => uri_eqb u v
+  | EvPlaylistsLoaded, EvPlaylistsLoaded => true
+  | _, _ => false
+  end.
+
+Definition answered (P : list backend) (c : call) : bool :=
+  match c with
+  | (Bk b, m, a) => match ans P b m a with RRaise _ => false | _ => true end
+  | _ => false
+  end.
+
+Definition events_spec (P : list backend) (o : op) (ob : obs) : option (list event) :=
+  match o with
+  | OCreate _ _ | OSave _ _ =>
+      Some (match snd ob with Ok (VVal CPlaylist id) => [EvPlaylistChanged id] | _ => [] end)
+  | ODelete u =>
+      match snd ob with
+      | Ok (VBool true) => Some [EvPlaylistDeleted u]
+      | Ok (VBool false) | Raise _ => Some []
+      | _ => None
+      end
+  | OPlRefresh _ =>
+      match snd ob with
+      | Ok _ => Some (if existsb (answered P) (fst ob) then [EvPlaylistsLoaded] else [])
+      | _ => None
+      end
+  | _ => Some []
+  end.
+
+Definition events_ok (c : case * list event) : bool :=
+  match events_spec (c_backends (fst c)) (c_op (fst c)) (c_impl (fst c)) with
+  | Some evs => list_eqb event_eqb evs (snd c)
+  | None => true
+  end.
